@@ -303,3 +303,61 @@ func CtxCancel(site string, ctx unsafe.Pointer, code int64) []unsafe.Pointer {
 
 //go:norace
 func CtxErr(ctx unsafe.Pointer) int64 { return call(request{kind: opCtxErr, ch: ctx}).n }
+
+// ChanIter drives a rewritten `for x := range ch` loop.
+type ChanIter[T any] struct {
+	site string
+	ch   unsafe.Pointer
+	cap  int
+}
+
+// RangeFirst performs the first receive of a range-over-channel loop.
+//
+//go:norace
+func RangeFirst[C ~chan T | ~<-chan T, T any](site string, ch C) (T, bool, *ChanIter[T]) {
+	it := &ChanIter[T]{site, chptr(ch), cap(ch)}
+	v, ok := it.Next()
+	return v, ok, it
+}
+
+// Next performs the next receive.
+//
+//go:norace
+func (it *ChanIter[T]) Next() (T, bool) {
+	rep := call(request{kind: opRecv, site: it.site, ch: it.ch, chcap: it.cap, tok: newTok()})
+	return conv[T](rep.val), rep.ok
+}
+
+// MapIter drives a rewritten `for k, v := range m` loop.
+type MapIter[K ordered, V any] struct {
+	m    map[K]V
+	keys []K
+	i    int
+	k    K
+	v    V
+}
+
+// MapRange starts an iteration over m in a scheduler-chosen key order.
+func MapRange[K ordered, V any](site string, m map[K]V) *MapIter[K, V] {
+	return &MapIter[K, V]{m: m, keys: MapKeys(site, m)}
+}
+
+// Next advances to the next key that is still present in the map.
+func (it *MapIter[K, V]) Next() bool {
+	for it.i < len(it.keys) {
+		k := it.keys[it.i]
+		it.i++
+		if v, ok := it.m[k]; ok {
+			it.k, it.v = k, v
+			return true
+		}
+	}
+	return false
+}
+
+func (it *MapIter[K, V]) Key() K { return it.k }
+func (it *MapIter[K, V]) Val() V { return it.v }
+
+// BadSelect is the panic value of the unreachable default branch that the
+// rewriter adds to a select without default.
+func BadSelect() string { return "simrt: select returned no case" }
